@@ -63,6 +63,22 @@ def check_ints(i, j, k, level):
             return "file read back is not equal to the file written"
     if got.tolist() != vals:
         return f"compress({vals}) decoded to {got.tolist()} via {comp.serialize()['encoding'] if level == 0 else 'column'}"
+    # reading a masked column with a placeholder for masked values never writes into the column (or the caller's array)
+    if all(-2 ** 31 <= v < 2 ** 31 for v in vals):
+        src = np.array(vals, dtype=np.int32)
+        mcol = pdbx.BinaryCIFColumn(pdbx.BinaryCIFData(src), mask=pdbx.BinaryCIFData(np.array([0, 1] + [2] * (len(vals) - 2), dtype=np.uint8)))
+        for dt_req in (np.int32, None, np.int64, float):
+            out = mcol.as_array(dt_req, masked_value=7) if dt_req is not None else mcol.as_array(masked_value=7)
+            if out.tolist()[0] != vals[0] or any(x != 7 for x in out.tolist()[1:]):
+                return f"as_array({dt_req}, masked_value=7) = {out.tolist()} for {vals} with mask [0, 1, 2..]"
+            if mcol.data.array.tolist() != vals or src.tolist() != vals:
+                return f"as_array({dt_req}, masked_value=7) wrote the placeholder into the stored data: {mcol.data.array.tolist()}"
+        back_col, _, _ = roundtrip_file(mcol)
+        if back_col.data.array.tolist() != vals:
+            return f"masked column written after as_array(masked_value): data {back_col.data.array.tolist()} vs {vals}"
+        out = back_col.as_array(np.int32, masked_value=7)
+        if out.tolist()[0] != vals[0] or any(x != 7 for x in out.tolist()[1:]):
+            return f"as_array(masked_value) on a column read from a file: {out.tolist()}"
     # the same values held in the narrowest integer dtype that can hold them (the dtype a column read from a file has):
     # arithmetic inside compress() must not wrap in that dtype (e.g. abs(-128) in int8)
     for dt in (np.int8, np.uint8, np.int16, np.uint16, np.int32, np.uint32):
